@@ -107,7 +107,13 @@ class LevyMeasure:
 
         if a > b:
             raise ValueError("Expected a<b when integrating the levy measure")
-        return quad(lambda x: x**n * self.__call__(x), a, b)[0]
+        # the mass of a Levy measure is concentrated around 0: split the range there, otherwise the change of
+        # variable used for infinite ranges can miss it altogether
+        bounds = [a] + [x for x in (-1.0, 0.0, 1.0) if a < x < b] + [b]
+        return sum(
+            quad(lambda x: x**n * self.__call__(x), left, right)[0]
+            for left, right in zip(bounds, bounds[1:])
+        )
 
 
 class TruncatedLevyMeasure(LevyMeasure):
